@@ -1072,7 +1072,8 @@ def jresp(st, hl, body, **kw):
 
 
 def run(ctx):
-    ctx.build(["Props/C20.vo"])
+    # Model/C20_obs.vo (the encoders used by the correspondence) is not in the closure of Props/C20.vo
+    ctx.build(["Props/C20.vo", "Model/C20_obs.vo"])
     from webob import Request, Response  # noqa
 
     # ------------------------------------------------------------------ correspondence: requests
@@ -1182,6 +1183,12 @@ def run(ctx):
         follow_up(ctx, "call_application", cases[i][2])
     for i in ctx.corr("send", IMPORTS, "c_send", scases, in_type="(bool * app)")[:8]:
         follow_up(ctx, "send", scases[i][2])
+
+    # a correspondence that could not be evaluated at all must not hide behind other violations
+    for b in ctx.broken:
+        if b.startswith("correspondence") and "could not be evaluated" in b:
+            ctx.fail("correspondence-not-evaluated", b, {"broken": b}, False, "corr")
+            break
 
     # ------------------------------------------------------------------ oracle sweeps
     oracle_requests(ctx)
